@@ -5,6 +5,7 @@
 #include "core.h"
 
 #include <array>
+#include <map>
 #include <vector>
 
 struct InfoRow
@@ -14,6 +15,7 @@ struct InfoRow
 
 struct ExtCall
 {
+    int phase = 0; // 0 initialiseVariables, 2 computeRates, 3 computeVariables; 4 / 5: computeRates / computeVariables of the second step
     long index;
     std::vector<int> definedVariables; // indices of variables (and states as -1-i) that were not NaN at the call
 };
@@ -30,13 +32,21 @@ struct GenRun
     InfoRow voiInfo;
     bool hasVoi = false;
     std::vector<double> states, rates, variables;
+    std::vector<double> states2, rates2, variables2; // after a second computeRates / computeVariables with the callback's second value set
     std::vector<ExtCall> extCalls;
     std::vector<double> residuals; // |f| of every NLA objective function at the solution used
     std::vector<std::string> declared, defined; // function names of the interface / implementation
     bool infoFits = true; // every info string fits its declared buffer
 };
 
-GenRun runGeneratedC(const std::string &interfaceCode, const std::string &implementationCode);
-GenRun runGeneratedPython(const std::string &implementationCode);
+// what the external-variable callback returns for each variable index in the first / second step (C20); without a
+// plan the callback returns 100 + index and there is no second step
+struct ExtPlan
+{
+    std::map<long, std::array<double, 2>> values;
+};
+
+GenRun runGeneratedC(const std::string &interfaceCode, const std::string &implementationCode, const ExtPlan *plan = nullptr);
+GenRun runGeneratedPython(const std::string &implementationCode, const ExtPlan *plan = nullptr);
 J genRunToJson(const GenRun &r);
 std::string treeToMathml(const J &tree); // Expr.tla trees -> content MathML (cellml:units="dimensionless" on cn)
